@@ -640,16 +640,20 @@ class Direct:
             if out == "ok" and before:
                 v = w.objs[-1] if op[0] == "new" else w.objs[op[4]]
                 still = {id(m) for _, _, _, m in w.walk()}
+                try:
+                    vpath = v.path
+                except (AttributeError, RecursionError):
+                    vpath = None        # cyclic parents (an object inserted below itself): no path to compare with
                 for p, a in before:
                     if id(a) not in still:
                         continue
                     if a.target is not v:
-                        fails.append(("alias-follows-replacement", {"alias": ".".join(p), "replaced": w.idx(replaced), "now": v.path}, w.idx(a)))
-                    elif a.target_path != v.path:
+                        fails.append(("alias-follows-replacement", {"alias": ".".join(p), "replaced": w.idx(replaced), "now": vpath}, w.idx(a)))
+                    elif vpath is not None and a.target_path != vpath:
                         # following the replacement includes naming it: Object.resolve, the JSON form and a later
                         # resolve_target all go by target_path
                         fails.append(("alias-follows-replacement", {"sub": "target_path", "alias": ".".join(p), "replaced": w.idx(replaced),
-                                                                    "target_path": a.target_path, "expected": v.path}, w.idx(a)))
+                                                                    "target_path": a.target_path, "expected": vpath}, w.idx(a)))
             if op[0] == "settarget" and op[1] == op[2] and out != "cyclic" and w.objs[op[1]].is_alias:
                 fails.append(("no-self-target", {"alias": op[1], "outcome": out}, op[1]))
         seen_known = set()
